@@ -65,3 +65,30 @@ package hash
 //@ ensures[copied] noescape(initialState)
 //@ modifies nothing
 //@ end
+
+// Reset puts the hasher back to its initial chaining value: the state IS the initial value again (the same slice: the
+// state is only ever replaced, never written in place - Write assigns the compressor's result, SetState and the
+// constructor assign copies -, which is what makes sharing it sound), and the initial value itself is untouched.
+//@ func merkleDamgardHasher.Reset
+//@ option opaque-calls
+//@ ensures[state] same(h.state, old(h.iv)) && same(h.iv, old(h.iv))
+//@ ensures[iv-untouched] forall(j, 0, len(h.iv), h.iv[j] == old(h.iv[j]))
+//@ modifies h
+//@ end
+
+//@ func merkleDamgardHasher.Size
+//@ ghost bs = 0
+//@ cut after call BlockSize #1
+//@ + ghost bs = callresult
+//@ ensures[value] result == bs
+//@ modifies nothing
+//@ end
+
+//@ func merkleDamgardHasher.BlockSize
+//@ ghost bs = 0
+//@ cut after call BlockSize #1
+//@ + ghost bs = callresult
+//@ ensures[value] result == bs
+//@ modifies nothing
+//@ end
+
